@@ -12,7 +12,7 @@ ID = 'C15'
 CASE_TYPE = 'C15.case'
 EXTRA_IMPORTS = 'From PJ Require Import Model.Registry.\n'
 RULE = ('registration histories of 1..3 (quick) / 1..5 (thorough) operations over {add, add with explicit name, add_methods(Method), '
-        'add_methods(plain function), view with / without prefix (a fresh view class or one already registered elsewhere in the history), merge} on registries with prefix in {none, "", "a", "a.b"}, merged up to '
+        'add_methods(plain function), view with / without prefix (a fresh view class or one already registered elsewhere in the history; a member called `show` is inherited from one shared base view), function objects may be registered more than once, merge} on registries with prefix in {none, "", "a", "a.b"}, merged up to '
         '3 levels deep, attached to either dispatcher (add_methods(registry) / add / view); small name pools so that collisions and '
         're-registrations occur; probed by dispatching a request for every registered name, every name one prefix segment away, the bare '
         'function and member names, private and non-callable member names. distinct = distinct (history, dispatcher kind); non-trivial = '
@@ -36,14 +36,19 @@ def rand_registry(rnd, depth, maxops, counter):
             k = 'add'
         fid = counter[0]
         counter[0] += 1
+        fname = rnd.choice(FNAMES)
+        if len(counter) > 2 and counter[2] and rnd.random() < 0.3:
+            fid, fname = rnd.choice(counter[2])        # the SAME function object registered once more
+        elif len(counter) > 2:
+            counter[2].append((fid, fname))
         if k == 'add':
-            ops.append(['add', fid, rnd.choice(FNAMES), None])
+            ops.append(['add', fid, fname, None])
         elif k == 'addname':
-            ops.append(['add', fid, rnd.choice(FNAMES), rnd.choice(XNAMES)])
+            ops.append(['add', fid, fname, rnd.choice(XNAMES)])
         elif k == 'method':
-            ops.append(['method', fid, rnd.choice(FNAMES), rnd.choice(XNAMES)])
+            ops.append(['method', fid, fname, rnd.choice(XNAMES)])
         elif k == 'plain':
-            ops.append(['plain', fid, rnd.choice(FNAMES)])
+            ops.append(['plain', fid, fname])
         elif k == 'view':
             if len(counter) > 1 and counter[1] and rnd.random() < 0.4:
                 ms = rnd.choice(counter[1])        # the SAME view class registered once more (another prefix / registry)
@@ -66,19 +71,25 @@ def generate(seed, tier):
     cases = []
     n = 900 if tier == 'quick' else 9000
     for _ in range(n):
-        counter = [0, []]       # next function id; the member lists of the view classes created so far
+        counter = [0, [], []]   # next function id; the member lists of the view classes created so far; the functions created so far
         maxops = rnd.choice([1, 2, 3]) if tier == 'quick' else rnd.choice([2, 3, 4, 5])
         top_ops = []
         for _ in range(rnd.randint(1, maxops)):
             k = rnd.choice(['reg', 'reg', 'add', 'view', 'method'])
             fid = counter[0]
             counter[0] += 1
+            fname = rnd.choice(FNAMES)
+            if k in ('add', 'method'):
+                if counter[2] and rnd.random() < 0.3:
+                    fid, fname = rnd.choice(counter[2])
+                else:
+                    counter[2].append((fid, fname))
             if k == 'reg':
                 top_ops.append(['merge', rand_registry(rnd, 2, maxops, counter)])
             elif k == 'add':
-                top_ops.append(['add', fid, rnd.choice(FNAMES), rnd.choice(XNAMES)])
+                top_ops.append(['add', fid, fname, rnd.choice(XNAMES)])
             elif k == 'method':
-                top_ops.append(['method', fid, rnd.choice(FNAMES), rnd.choice(XNAMES)])
+                top_ops.append(['method', fid, fname, rnd.choice(XNAMES)])
             elif counter[1] and rnd.random() < 0.4:
                 top_ops.append(['view', None, rnd.choice(counter[1])])
             else:
@@ -87,10 +98,33 @@ def generate(seed, tier):
                 counter[1].append(sorted(ms))
                 top_ops.append(['view', None, sorted(ms)])
         cases.append({'hist': [None, top_ops], 'async': rnd.random() < 0.5})
+    # fixed scenarios: two views inheriting `show` from the shared base registered under one name (the later one wins); one
+    # function registered under a prefix / an explicit name and then again as an unnamed Method / plain function
+    for is_async in (False, True):
+        for pa, pb in ((None, None), ('v', 'v'), ('a', 'a')):
+            v1, v2 = [['show', True, 1]], [['run', True, 2], ['show', True, 3]]
+            cases.append({'hist': [None, [['merge', [None, [['view', pa, v1], ['view', pb, v2]]]]]], 'async': is_async})
+            cases.append({'hist': [None, [['merge', [None, [['view', pa, v1]]]], ['merge', [None, [['view', pb, v2]]]]]], 'async': is_async})
+        cases.append({'hist': [None, [['view', None, [['show', True, 1]]], ['view', None, [['show', True, 2]]]]], 'async': is_async})
+        for first in (['merge', ['a', [['add', 0, 'f', None]]]], ['add', 0, 'f', 'x'], ['merge', ['a.b', [['add', 0, 'f', 'renamed']]]]):
+            for second in (['method', 0, 'f', None], ['merge', ['b', [['method', 0, 'f', None]]]], ['merge', [None, [['plain', 0, 'f']]]],
+                           ['add', 0, 'f', None]):
+                cases.append({'hist': [None, [first, second]], 'async': is_async})
     return cases
 
 
+_fns = {}
+
+
 def mkfn(fid, name, is_async):
+    # one function object per function id within an observation
+    key = (fid, name, is_async)
+    if key not in _fns:
+        _fns[key] = mkfn_new(fid, name, is_async)
+    return _fns[key]
+
+
+def mkfn_new(fid, name, is_async):
     ns = {}
     exec('%sdef %s():\n    return %d\n' % ('async ' if is_async else '', name, fid), ns)
     return ns[name]
@@ -107,15 +141,32 @@ def mkview(members, is_async):
     return _views[key]
 
 
+_bases = {}
+
+
+def base_view(is_async):
+    """A base view whose public method `show` every generated view with a callable member of that name INHERITS (one function
+    object shared by all of them); it answers with the class attribute the subclass sets."""
+    if is_async not in _bases:
+        ns = {'ViewMixin': ViewMixin}
+        exec('class Base(ViewMixin):\n    SHOW_ID = -1\n    %sdef show(self):\n        return self.SHOW_ID\n' % ('async ' if is_async else ''), ns)
+        _bases[is_async] = ns['Base']
+    return _bases[is_async]
+
+
 def mkview_new(members, is_async):
     body = ''
+    inherit = None
     for name, callable_, fid in members:
-        if callable_:
+        if callable_ and name == 'show':
+            inherit = fid
+            body += '    SHOW_ID = %d\n' % fid
+        elif callable_:
             body += '    %sdef %s(self):\n        return %d\n' % ('async ' if is_async else '', name, fid)
         else:
             body += '    %s = %d\n' % (name, fid)
-    ns = {'ViewMixin': ViewMixin}
-    exec('class V(ViewMixin):\n' + body, ns)
+    ns = {'ViewMixin': ViewMixin, 'Base': base_view(is_async)}
+    exec('class V(%s):\n' % ('Base' if inherit is not None else 'ViewMixin') + body, ns)
     return ns['V']
 
 
@@ -150,6 +201,7 @@ def apply_ops(target, ops, is_async, top=False):
 def observe(case):
     is_async = case['async']
     _views.clear()
+    _fns.clear()
     disp = (AsyncDispatcher if is_async else Dispatcher)()
     apply_ops(disp, case['hist'][1], is_async, top=True)
     keys = sorted(disp.registry.keys())
